@@ -442,14 +442,19 @@ def r2(run: Run, src):
         hc_by_eval = False
     if not hc_by_eval:
         _handle_cell_roles(run, src, fields, report)
-    # Cell.uid order
-    uid = src.cls('Cell').methods.get('uid')
-    lists = [n for n in ast.walk(uid.node) if isinstance(n, ast.List) and len(n.elts) == 3 and
-             all(isinstance(e, ast.Attribute) for e in n.elts)]
-    ok = bool(lists) and [e.attr for e in lists[0].elts] == ['title', 'column', 'row']
-    run.check(ok, 'C02.R2', 'Cell.uid/order', 'uid-order',
-              f'the member name is built from {[e.attr for e in lists[0].elts] if lists else "?"}; every consumer (executor, context) '
-              f'relies on title, column, row', fact='title, column, row', loc=loc_of(uid.module.path, uid.node))
+    # Cell.uid order: by evaluation; the structural reading is the fallback
+    from .common import check_uid
+    try:
+        check_uid(run, 'C02.R2', src)
+    except AnalysisError:
+        uid = src.cls('Cell').methods.get('uid')
+        lists = [n for n in ast.walk(uid.node) if isinstance(n, ast.List) and len(n.elts) == 3 and
+                 all(isinstance(e, ast.Attribute) for e in n.elts)]
+        ok = bool(lists) and [e.attr for e in lists[0].elts] == ['title', 'column', 'row']
+        run.check(ok, 'C02.R2', 'Cell.uid/order', 'uid-order',
+                  f'the member name is built from {[e.attr for e in lists[0].elts] if lists else "?"}; every consumer (executor, context) '
+                  f'relies on title, column, row', fact='title, column, row', loc=loc_of(uid.module.path, uid.node))
+
 
     ex = src.cls('Excel')
     env0 = _excel_env(src)
